@@ -523,9 +523,6 @@ theorem relC_waitAttempt (s : St) (ms : C15St) (t : Nat) (a : TS) (k : WKind) (e
     · intro e he
       obtain ⟨seen, lo, h1, h2, h3, h4⟩ := hca e he
       refine ⟨k, seen, lo, h1, ?_⟩
-      have hval : RetOK ms t k seen lo (.val s.val) ↔
-          (k ≠ .empty ∧ k.eval ms.m s.val = .ok ∧ mayBe seen (· == s.val) = true ∧
-            ms.inBounds lo 0 s.val = true) := Iff.rfl
       cases k with
       | empty => exact ⟨rfl, seenval seen h2 _ (by rw [hmm, hev]; rfl)⟩
       | value => exact ⟨by simp, by rw [hmm]; exact hev, seenval seen h2 _ (by simp), inBounds_of_val s ms hR lo h3⟩
@@ -541,5 +538,816 @@ theorem relC_waitAttempt (s : St) (ms : C15St) (t : Nat) (a : TS) (k : WKind) (e
     · intro e he
       obtain ⟨seen, lo, h1, h2, h3, h4⟩ := hca e he
       exact ⟨seen, lo, h1, h2, h3, h4⟩
+
+
+/-! ### environment actions -/
+
+/-- the monitor learns about more fired error sources; nothing else changes -/
+theorem relC_env (s : St) (ms : C15St) (cx' cn' : List Nat) (es' : List (Nat × Nat)) (ec' : List Nat)
+    (hR : RelC s ms) (hcn : cn' = cx')
+    (h0 : ∀ x, x ∈ ms.cancelled → x ∈ cn')
+    (h1 : ∀ x, x ∈ ms.errsent → x ∈ es') (h2 : ∀ x, x ∈ ms.errclosed → x ∈ ec') :
+    RelC { s with cx := cx' } { ms with cancelled := cn', errsent := es', errclosed := ec' } := by
+  have hmm : MsMono ms { ms with cancelled := cn', errsent := es', errclosed := ec' } :=
+    ⟨rfl, rfl, Nat.le_refl _, Nat.le_refl _, fun h => h, h1, h0, h2, fun h => h,
+     fun l h => ⟨l, h, fun _ h => h⟩⟩
+  refine ⟨⟨hR.inv.bcwf, hR.inv.parked⟩, hR.len, hR.hm, hcn, ?_, hR.val, hR.nwr, hR.p1, hR.solo,
+    hR.icnt, hR.ival, hR.ionly, hR.fresh⟩
+  intro u ts hu
+  obtain ⟨e, he, hm⟩ := hR.corr u ts hu
+  exact ⟨e, he, corrC_keep s.val s.val ms _ hmm u e ts (Or.inl rfl) hm⟩
+
+theorem relC_onECh (s s' : St) (ms : C15St) (t : Nat) (f : ECh → Option ECh)
+    (hR : RelC s ms) (hs : onECh s t f = some s') (hinv : Inv s')
+    (hf : ∀ c c', f c = some c' → EchOK ms t (some c) → EchOK ms t (some c')) : RelC s' ms := by
+  unfold onECh at hs
+  split at hs
+  · rename_i k e h
+    cases hfe : f e with
+    | none => simp [hfe] at hs
+    | some e' =>
+      simp [hfe] at hs; subst hs
+      refine relC_wmove s ms t _ _ s.bc hR h hinv ?_ ?_ ⟨rfl, rfl⟩ ⟨rfl, rfl⟩ (by intro o h; cases h)
+      · intro en hen; obtain ⟨seen, lo, h1, _⟩ := hen; exact ⟨k, seen, lo, h1⟩
+      · intro en hen
+        obtain ⟨seen, lo, h1, h2, h3, h4⟩ := hen
+        exact ⟨seen, lo, h1, h2, h3, hf e e' hfe h4⟩
+  · rename_i k e c h
+    cases hfe : f e with
+    | none => simp [hfe] at hs
+    | some e' =>
+      simp [hfe] at hs; subst hs
+      refine relC_wmove s ms t _ _ s.bc hR h hinv ?_ ?_ ⟨rfl, rfl⟩ ⟨rfl, rfl⟩ (by intro o h; cases h)
+      · intro en hen; obtain ⟨seen, lo, h1, _⟩ := hen; exact ⟨k, seen, lo, h1⟩
+      · intro en hen
+        obtain ⟨seen, lo, h1, h2, h3, h4⟩ := hen
+        exact ⟨seen, lo, h1, h2, h3, hf e e' hfe h4⟩
+  · simp at hs; subst hs; exact hR
+  · simp at hs; subst hs; exact hR
+  · simp at hs
+
+
+/-! ### a call is invoked -/
+
+theorem mayBe_imp (seen : Option (List Nat)) (p q : Nat → Bool) (hpq : ∀ v, p v = true → q v = true)
+    (h : mayBe seen p = true) : mayBe seen q = true := by
+  cases seen with
+  | none => rfl
+  | some l =>
+    simp only [mayBe] at h ⊢
+    rw [List.any_eq_true] at h ⊢
+    obtain ⟨x, hx, hpx⟩ := h
+    exact ⟨x, hx, hpq x hpx⟩
+
+theorem isPendW_see (n : Option (List Nat)) (e : CEntry) : isPendW (e.see n) = isPendW e := by
+  cases e with
+  | op o seen lo clean pend => cases pend <;> rfl
+  | wait k seen lo => rfl
+
+theorem countP_map_see (n : Option (List Nat)) (l : List CEntry) :
+    (l.map (CEntry.see n)).countP isPendW = l.countP isPendW := by
+  induction l with
+  | nil => rfl
+  | cons a r ih => simp [List.countP_cons, isPendW_see, ih]
+
+theorem seenOK_addSeen (ms' : C15St) (seen : Option (List Nat)) :
+    SeenOK ms' (addSeen ms'.poss seen) := by
+  intro l' hl'
+  cases seen with
+  | none => simp [addSeen] at hl'
+  | some l1 =>
+    cases hp : ms'.poss with
+    | none => rw [hp] at hl'; simp [addSeen] at hl'
+    | some l2 =>
+      rw [hp] at hl'; simp [addSeen] at hl'
+      subst hl'
+      exact ⟨l2, rfl, fun w hw => by simp [hw]⟩
+
+/-- monitor-state evolution at the invocation of a writer, as far as old entries are concerned -/
+structure MsInv (ms ms' : C15St) : Prop where
+  m : ms'.m = ms.m
+  base : ms'.base = ms.base
+  incInv : ms.incInv ≤ ms'.incInv
+  incDone : ms'.incDone = ms.incDone
+  incOnly : ms'.incOnly = true → ms.incOnly = true
+  errsent : ms'.errsent = ms.errsent
+  cancelled : ms'.cancelled = ms.cancelled
+  errclosed : ms'.errclosed = ms.errclosed
+
+theorem MsInv.boundOK {ms ms' : C15St} (h : MsInv ms ms') (lo : Nat) (o : Op) (v0 : Nat)
+    (hb : BoundOK ms lo o v0) : BoundOK ms' lo o v0 := by
+  intro h1 h2
+  have := hb (h.incOnly h1) (by rw [← h.m]; exact h2)
+  rw [h.base]
+  have := h.incInv
+  omega
+
+theorem corrC_see (val : Nat) (ms ms' : C15St) (hmi : MsInv ms ms') (t : Nat) (e : CEntry) (ts : TS)
+    (h : CorrC val ms t e ts) : CorrC val ms' t (e.see ms'.poss) ts := by
+  cases ts with
+  | opInv o =>
+    obtain ⟨seen, lo, clean, h1, h2, h3, h4⟩ := h
+    subst h1
+    exact ⟨_, lo, false, rfl, seenOK_addSeen ms' seen, (by rw [hmi.incDone]; exact h3),
+      (fun hc => by cases hc)⟩
+  | opRan o r =>
+    obtain ⟨seen, lo, clean, h1, h2, v0, h3, h4, h5⟩ := h
+    subst h1
+    exact ⟨_, lo, false, rfl, (fun hc => by cases hc), v0, h3, mayBe_addSeen _ _ _ h4,
+      hmi.boundOK lo o v0 h5⟩
+  | done =>
+    rcases h with ⟨o, seen, lo, clean, h1⟩ | ⟨k, seen, lo, h1⟩
+    · subst h1; exact Or.inl ⟨o, seen, lo, clean, rfl⟩
+    · subst h1; exact Or.inr ⟨k, _, lo, rfl⟩
+  | wLoop k ech =>
+    obtain ⟨seen, lo, h1, h2, h3, h4⟩ := h
+    subst h1
+    refine ⟨_, lo, rfl, seenOK_addSeen ms' seen, by rw [hmi.incDone]; exact h3, ?_⟩
+    intro c hc
+    obtain ⟨g1, g2⟩ := h4 c hc
+    exact ⟨fun e he => by rw [hmi.errsent]; exact g1 e he, fun hcl => by rw [hmi.errclosed]; exact g2 hcl⟩
+  | wParked k ech ch =>
+    obtain ⟨seen, lo, h1, h2, h3, h4⟩ := h
+    subst h1
+    refine ⟨_, lo, rfl, seenOK_addSeen ms' seen, by rw [hmi.incDone]; exact h3, ?_⟩
+    intro c hc
+    obtain ⟨g1, g2⟩ := h4 c hc
+    exact ⟨fun e he => by rw [hmi.errsent]; exact g1 e he, fun hcl => by rw [hmi.errclosed]; exact g2 hcl⟩
+  | wRet r =>
+    obtain ⟨k, seen, lo, h1, h2⟩ := h
+    subst h1
+    refine ⟨k, _, lo, rfl, ?_⟩
+    cases r with
+    | val v =>
+      obtain ⟨g1, g2, g3, g4⟩ := h2
+      exact ⟨g1, by rw [hmi.m]; exact g2, mayBe_addSeen _ _ _ g3,
+        inBounds_mono ms ms' lo 0 v hmi.m hmi.base hmi.incInv hmi.incOnly g4⟩
+    | ok =>
+      obtain ⟨g1, g2⟩ := h2
+      exact ⟨g1, by rw [hmi.m]; exact mayBe_addSeen _ _ _ g2⟩
+    | err e =>
+      rcases h2 with g | ⟨g1, g2⟩
+      · exact Or.inl (by rw [hmi.errsent]; exact g)
+      · exact Or.inr ⟨g1, by rw [hmi.m]; exact mayBe_addSeen _ _ _ g2⟩
+    | canceled =>
+      rcases h2 with g | g
+      · exact Or.inl (by rw [hmi.cancelled]; exact g)
+      · exact Or.inr (by rw [hmi.errclosed]; exact g)
+
+
+/-- invocation of a call that is not a writer: only a new entry and a new thread -/
+theorem relC_append (s : St) (ms : C15St) (b : TS) (e' : CEntry) (hR : RelC s ms)
+    (hinv : Inv { s with th := s.th ++ [b] })
+    (hpw : isPendW e' = false)
+    (hcb : CorrC s.val ms s.th.length e' b)
+    (hfb : isIncInv b = false ∧ isIncRan b = false)
+    (hnw : ∀ o, b = .opInv o → o.isWriter = false) :
+    RelC { s with th := s.th ++ [b] } { ms with calls := ms.calls ++ [e'] } := by
+  have hmm : MsMono ms { ms with calls := ms.calls ++ [e'] } :=
+    ⟨rfl, rfl, Nat.le_refl _, Nat.le_refl _, fun h => h, fun _ h => h, fun _ h => h, fun _ h => h,
+     fun h => h, fun l h => ⟨l, h, fun _ h => h⟩⟩
+  have oldT : ∀ (u : Nat) (ts : TS), (s.th ++ [b])[u]? = some ts →
+      (u < s.th.length ∧ s.th[u]? = some ts) ∨ (u = s.th.length ∧ ts = b) :=
+    fun u ts hu => getElem?_snoc_cases s.th b ts u hu
+  refine ⟨hinv, by simp [hR.len], hR.hm, hR.hcx, ?_, hR.val, ?_, hR.p1, ?_, ?_, ?_, ?_, ?_⟩
+  · intro u ts hu
+    rcases oldT u ts hu with ⟨_, h0⟩ | ⟨hul, hts⟩
+    · obtain ⟨e, he, hm⟩ := hR.corr u ts h0
+      exact ⟨e, getElem?_snoc_left _ _ _ _ he, corrC_keep s.val s.val ms _ hmm u e ts (Or.inl rfl) hm⟩
+    · subst hts
+      refine ⟨e', by simp only; rw [hul, ← hR.len]; simp, ?_⟩
+      rw [hul]
+      exact corrC_keep s.val s.val ms _ hmm _ e' ts (Or.inl rfl) hcb
+  · simp only [countP_append_one, hpw]; simpa using hR.nwr
+  · intro d saved hs
+    obtain ⟨o, seen, lo, clean, h1, h2, h3, h4, h5⟩ := hR.solo d saved hs
+    refine ⟨o, seen, lo, clean, getElem?_snoc_left _ _ _ _ h1, h2, h3, h4, ?_⟩
+    intro l0 hl0
+    obtain ⟨k1, k2⟩ := h5 l0 hl0
+    refine ⟨k1, ?_⟩
+    intro ts hu
+    rcases oldT d ts hu with ⟨_, h0⟩ | ⟨hdl, _⟩
+    · exact k2 ts h0
+    · have := lt_of_getElem? h1; rw [hR.len] at this; omega
+  · simp only [countP_append_one, hfb.1, hfb.2]; simpa using hR.icnt
+  · intro hio hm1
+    simp only [countP_append_one, hfb.2]; simpa using hR.ival hio hm1
+  · intro hio u o hu hw
+    rcases oldT u _ hu with ⟨_, h0⟩ | ⟨_, hts⟩
+    · exact hR.ionly hio u o h0 hw
+    · rw [hnw o hts.symm] at hw; cases hw
+  · intro h; simp at h
+
+/-- invocation of a writer (`SetValue`, `SwapValue` with a callback) -/
+theorem relC_invWriter (s : St) (ms : C15St) (o : Op) (hR : RelC s ms) (hw : o.isWriter = true)
+    (hinv : Inv { s with th := s.th ++ [.opInv o] }) :
+    RelC { s with th := s.th ++ [.opInv o] }
+      { ms with
+        calls := ms.calls.map (CEntry.see (if ms.nwr = 0 then ms.poss.map (fun l => l ++ l.map (o.newVal ms.m)) else none)) ++
+          [.op o (if ms.nwr = 0 then ms.poss.map (fun l => l ++ l.map (o.newVal ms.m)) else none) ms.incDone false true]
+        poss := if ms.nwr = 0 then ms.poss.map (fun l => l ++ l.map (o.newVal ms.m)) else none
+        nwr := ms.nwr + 1
+        solo := if ms.nwr = 0 then some (ms.calls.length, ms.poss) else none
+        incOnly := ms.incOnly && o.isInc
+        incInv := ms.incInv + (if o.isInc then 1 else 0) } := by
+  generalize hposs' : (if ms.nwr = 0 then ms.poss.map (fun l => l ++ l.map (o.newVal ms.m)) else none) = poss'
+  generalize hms' : ({ ms with
+        calls := ms.calls.map (CEntry.see poss') ++ [.op o poss' ms.incDone false true]
+        poss := poss'
+        nwr := ms.nwr + 1
+        solo := if ms.nwr = 0 then some (ms.calls.length, ms.poss) else none
+        incOnly := ms.incOnly && o.isInc
+        incInv := ms.incInv + (if o.isInc then 1 else 0) } : C15St) = ms'
+  have e_calls : ms'.calls = ms.calls.map (CEntry.see ms'.poss) ++ [.op o ms'.poss ms.incDone false true] := by
+    rw [← hms']
+  have e_poss : ms'.poss = poss' := by rw [← hms']
+  have e_nwr : ms'.nwr = ms.nwr + 1 := by rw [← hms']
+  have e_solo : ms'.solo = if ms.nwr = 0 then some (ms.calls.length, ms.poss) else none := by rw [← hms']
+  have e_only : ms'.incOnly = (ms.incOnly && o.isInc) := by rw [← hms']
+  have e_inv : ms'.incInv = ms.incInv + (if o.isInc then 1 else 0) := by rw [← hms']
+  have e_done : ms'.incDone = ms.incDone := by rw [← hms']
+  have e_m : ms'.m = ms.m := by rw [← hms']
+  have e_base : ms'.base = ms.base := by rw [← hms']
+  have e_cn : ms'.cancelled = ms.cancelled := by rw [← hms']
+  have e_es : ms'.errsent = ms.errsent := by rw [← hms']
+  have e_ec : ms'.errclosed = ms.errclosed := by rw [← hms']
+  have hmi : MsInv ms ms' :=
+    ⟨e_m, e_base, by rw [e_inv]; omega, e_done, by intro h; rw [e_only] at h; simp at h; exact h.1,
+     e_es, e_cn, e_ec⟩
+  have oldT : ∀ (u : Nat) (ts : TS), (s.th ++ [.opInv o])[u]? = some ts →
+      (u < s.th.length ∧ s.th[u]? = some ts) ∨ (u = s.th.length ∧ ts = .opInv o) :=
+    fun u ts hu => getElem?_snoc_cases s.th _ ts u hu
+  have hlenm : (ms.calls.map (CEntry.see ms'.poss)).length = s.th.length := by simp [hR.len]
+  have hnew : ms'.calls[s.th.length]? = some (.op o ms'.poss ms.incDone false true) := by
+    rw [e_calls, List.getElem?_append_right (by rw [hlenm]; omega), hlenm]; simp
+  have hisinc : isIncInv (.opInv o) = o.isInc := by
+    cases o with
+    | get => rfl
+    | set v => rfl
+    | swap f => cases f <;> rfl
+  refine ⟨hinv, by rw [e_calls]; simp [hR.len], by rw [e_m]; exact hR.hm, by rw [e_cn]; exact hR.hcx,
+    ?_, ?_, ?_, ?_, ?_, ?_, ?_, ?_, ?_⟩
+  · -- corr
+    intro u ts hu
+    rcases oldT u ts hu with ⟨hlt, h0⟩ | ⟨hul, hts⟩
+    · obtain ⟨e, he, hm⟩ := hR.corr u ts h0
+      refine ⟨e.see ms'.poss, ?_, corrC_see s.val ms ms' hmi u e ts hm⟩
+      rw [e_calls, List.getElem?_append_left (by rw [hlenm]; exact hlt)]
+      simp [he]
+    · subst hts
+      refine ⟨_, by rw [hul]; exact hnew, ?_⟩
+      refine ⟨ms'.poss, ms.incDone, false, rfl, ?_, by rw [e_done]; exact Nat.le_refl _, fun h => by cases h⟩
+      intro l' hl'; exact ⟨l', hl', fun _ h => h⟩
+  · -- val
+    intro l hl
+    rw [e_poss, ← hposs'] at hl
+    split at hl
+    · cases hp : ms.poss with
+      | none => rw [hp] at hl; simp at hl
+      | some l0 =>
+        rw [hp] at hl; simp at hl; subst hl
+        simp [hR.val l0 hp]
+    · cases hl
+  · -- nwr
+    rw [e_nwr, e_calls, countP_append_one, countP_map_see, isPendW_of_writer o _ _ _ hw, hR.nwr]; rfl
+  · -- p1
+    intro l hl
+    rw [e_poss, ← hposs'] at hl
+    split at hl
+    · rename_i hn; right; rw [e_solo, if_pos hn]; exact ⟨_, rfl⟩
+    · cases hl
+  · -- solo
+    intro d saved hs
+    rw [e_solo] at hs
+    split at hs <;> simp at hs
+    rename_i hn
+    obtain ⟨hd, hsv⟩ := hs
+    subst hsv
+    refine ⟨o, ms'.poss, ms.incDone, false, by rw [← hd, hR.len]; exact hnew, hw, by rw [e_nwr]; omega,
+      ?_, ?_⟩
+    · intro hnone; rw [e_poss, ← hposs', if_pos hn, hnone]; rfl
+    · intro l0 hl0
+      refine ⟨by rw [e_poss, ← hposs', if_pos hn, hl0, e_m]; rfl, ?_⟩
+      intro ts hu
+      rcases oldT d ts hu with ⟨hlt, _⟩ | ⟨_, hts⟩
+      · rw [← hd, hR.len] at hlt; omega
+      · subst hts
+        exact ⟨fun _ => hR.val l0 hl0, fun r h => by cases h⟩
+  · -- icnt
+    rw [e_inv, e_done]
+    simp only [countP_append_one, hisinc, isIncRan_opInv]
+    have := hR.icnt
+    cases o.isInc <;> simp <;> omega
+  · -- ival
+    intro hio hm1
+    rw [e_only] at hio; simp at hio
+    rw [e_base, e_done]
+    simp only [countP_append_one, isIncRan_opInv]
+    simpa using hR.ival hio.1 (by rw [← e_m]; exact hm1)
+  · -- ionly
+    intro hio u o' hu hw'
+    rw [e_only] at hio; simp at hio
+    rcases oldT u _ hu with ⟨_, h0⟩ | ⟨_, hts⟩
+    · exact hR.ionly hio.1 u o' h0 hw'
+    · have ho : o' = o := by injection hts
+      rw [ho]
+      have hinc := hio.2
+      cases o with
+      | get => simp [Op.isInc] at hinc
+      | set v => simp [Op.isInc] at hinc
+      | swap f => cases f <;> simp [Op.isInc] at hinc ⊢
+  · intro h; simp at h
+
+
+/-! ### Get/Set/Swap returns -/
+
+theorem inBounds_of_boundOK (ms : C15St) (lo : Nat) (o : Op) (v0 : Nat) (h : BoundOK ms lo o v0) :
+    ms.inBounds lo (if o.isInc then 1 else 0) (v0 + (if o.isInc then 1 else 0)) = true := by
+  unfold C15St.inBounds
+  cases hio : ms.incOnly with
+  | false => simp
+  | true =>
+    by_cases hm1 : ms.m = 1
+    · simp [hm1]
+    · have := h hio hm1
+      simp [hm1]
+      omega
+
+theorem okRes_of_corr (ms : C15St) (o : Op) (seen : Option (List Nat)) (lo r v0 : Nat)
+    (hr : r = o.result v0) (hmay : mayBe seen (· == v0) = true) (hb : BoundOK ms lo o v0) :
+    okResOf ms o seen lo r = true := by
+  have hib := inBounds_of_boundOK ms lo o v0 hb
+  subst hr
+  cases o with
+  | get => simpa [okResOf, Op.result, Op.isInc, hmay] using hib
+  | set v => rfl
+  | swap f =>
+    have hm2 : mayBe seen (fun v => f.apply v == f.apply v0) = true :=
+      mayBe_imp seen _ _ (by intro v hv; simp at hv; simp [hv]) hmay
+    cases f with
+    | inc => simpa [okResOf, Op.result, Op.isInc, hm2, hmay, SwapF.apply] using hib
+    | nilcb => simpa [okResOf, Op.result, Op.isInc, hm2, hmay, SwapF.apply] using hib
+    | setk k => simp [okResOf, Op.result, hm2]
+    | clear => simp [okResOf, Op.result, hm2]
+
+theorem isIncRan_eq (o : Op) (r : Nat) : isIncRan (.opRan o r) = o.isInc := by
+  cases o with
+  | get => rfl
+  | set v => rfl
+  | swap f => cases f <;> rfl
+
+theorem relC_retOp (s : St) (ms : C15St) (t : Nat) (o : Op) (r : Nat) (hR : RelC s ms)
+    (ha : s.th[t]? = some (.opRan o r)) (hinv : Inv { s with th := s.th.set t .done }) :
+    ∃ ms', monC15.step ms (.retOp t r) = some ms' ∧ RelC { s with th := s.th.set t .done } ms' := by
+  obtain ⟨et, het, seen, lo, clean, hete, hclean, v0, hr, hmay, hbound⟩ := hR.corr t _ ha
+  subst hete
+  have hok := okRes_of_corr ms o seen lo r v0 hr hmay hbound
+  refine ⟨retOpMs ms t o seen lo clean r, by simp only [monC15, het, hok, if_true], ?_⟩
+  have hlt : t < ms.calls.length := lt_of_getElem? het
+  have old : ∀ (u : Nat) (ts : TS), (s.th.set t .done)[u]? = some ts →
+      (u = t ∧ ts = .done) ∨ (u ≠ t ∧ s.th[u]? = some ts) :=
+    fun u ts hu => getElem?_set_cases s.th t u .done ts hu
+  have hne : s.th ≠ [] := by intro h; rw [h] at ha; simp at ha
+  have cA := countP_set isIncInv s.th t _ .done ha
+  have cR := countP_set isIncRan s.th t _ .done ha
+  rw [isIncInv_opRan] at cA
+  rw [isIncRan_eq] at cR
+  have hA' : (s.th.set t .done).countP isIncInv = s.th.countP isIncInv := by simpa [isIncInv] using cA
+  have hR' : (s.th.set t .done).countP isIncRan + (if o.isInc then 1 else 0) = s.th.countP isIncRan := by
+    simpa [isIncRan] using cR
+  generalize hms' : retOpMs ms t o seen lo clean r = ms'
+  have e_calls : ms'.calls = ms.calls.set t (.op o seen lo clean false) := by
+    rw [← hms']; unfold retOpMs; split <;> (try split) <;> rfl
+  have e_m : ms'.m = ms.m := by rw [← hms']; unfold retOpMs; split <;> (try split) <;> rfl
+  have e_base : ms'.base = ms.base := by rw [← hms']; unfold retOpMs; split <;> (try split) <;> rfl
+  have e_cn : ms'.cancelled = ms.cancelled := by rw [← hms']; unfold retOpMs; split <;> (try split) <;> rfl
+  have e_es : ms'.errsent = ms.errsent := by rw [← hms']; unfold retOpMs; split <;> (try split) <;> rfl
+  have e_ec : ms'.errclosed = ms.errclosed := by rw [← hms']; unfold retOpMs; split <;> (try split) <;> rfl
+  have e_only : ms'.incOnly = ms.incOnly := by rw [← hms']; unfold retOpMs; split <;> (try split) <;> rfl
+  have e_inv : ms'.incInv = ms.incInv := by rw [← hms']; unfold retOpMs; split <;> (try split) <;> rfl
+  -- the common part: everything except poss / nwr / solo / incDone
+  have finish : MsMono ms ms' → (∀ l, ms'.poss = some l → s.val ∈ l) →
+      ms'.nwr = (ms.calls.set t (.op o seen lo clean false)).countP isPendW →
+      (∀ l, ms'.poss = some l → ms'.nwr = 0 ∨ ∃ ds, ms'.solo = some ds) →
+      (∀ (d : Nat) (saved : Option (List Nat)), ms'.solo = some (d, saved) →
+        ms.solo = some (d, saved) ∧ d ≠ t ∧ ms'.nwr = ms.nwr ∧ ms'.poss = ms.poss) →
+      ms'.incDone = ms.incDone + (if o.isInc then 1 else 0) →
+      RelC { s with th := s.th.set t .done } ms' := by
+    intro hmm hval hnwr hp1 hsolo hdone
+    refine ⟨hinv, by rw [e_calls]; simp [hR.len], by rw [e_m]; exact hR.hm, by rw [e_cn]; exact hR.hcx,
+      ?_, hval, by rw [e_calls]; exact hnwr, hp1, ?_, ?_, ?_, ?_, ?_⟩
+    · intro u ts hu
+      rcases old u ts hu with ⟨hut, hts⟩ | ⟨hut, h0⟩
+      · subst hut; subst hts
+        exact ⟨_, by rw [e_calls]; simp [hlt], Or.inl ⟨o, seen, lo, clean, rfl⟩⟩
+      · obtain ⟨e, he, hm⟩ := hR.corr u ts h0
+        exact ⟨e, by rw [e_calls, getElem?_set_ne' _ _ _ _ (fun h => hut h.symm)]; exact he,
+          corrC_keep s.val s.val ms ms' hmm u e ts (Or.inl rfl) hm⟩
+    · intro d saved hs
+      obtain ⟨hs0, hdt, hn, hp⟩ := hsolo d saved hs
+      obtain ⟨o2, seen2, lo2, clean2, h1, h2, h3, h4, h5⟩ := hR.solo d saved hs0
+      refine ⟨o2, seen2, lo2, clean2, by rw [e_calls, getElem?_set_ne' _ _ _ _ (fun h => hdt h.symm)]; exact h1,
+        h2, by rw [hn]; exact h3, by rw [hp]; exact h4, ?_⟩
+      intro l0 hl0
+      obtain ⟨k1, k2⟩ := h5 l0 hl0
+      refine ⟨by rw [hp, e_m]; exact k1, ?_⟩
+      intro ts hu
+      rcases old d ts hu with ⟨hut, _⟩ | ⟨_, h0⟩
+      · exact absurd hut hdt
+      · rw [e_m]; exact k2 ts h0
+    · rw [e_inv, hdone, hA']
+      have h1 := hR.icnt
+      cases hi : o.isInc <;> simp [hi] at hR' ⊢ <;> omega
+    · intro hio hm1
+      rw [e_only] at hio
+      rw [e_m] at hm1
+      rw [e_base, hdone]
+      have h1 := hR.ival hio hm1
+      cases hi : o.isInc <;> simp [hi] at hR' ⊢ <;> omega
+    · intro hio u o' hu hw'
+      rw [e_only] at hio
+      rcases old u _ hu with ⟨_, hts⟩ | ⟨_, h0⟩
+      · cases hts
+      · exact hR.ionly hio u o' h0 hw'
+    · intro h
+      simp only at h
+      have : (s.th.set t .done).length = 0 := by rw [h]; rfl
+      simp at this
+      exact absurd this hne
+  cases hw : o.isWriter with
+  | true =>
+    have hpw : isPendW (.op o seen lo clean true) = true := isPendW_of_writer o seen lo clean hw
+    have hn1 : 0 < ms.nwr := by
+      rw [hR.nwr]; exact countP_pos_of_getElem? isPendW ms.calls t _ het hpw
+    have e_nwr : ms'.nwr = ms.nwr - 1 := by rw [← hms']; unfold retOpMs; rw [if_pos hw]
+    have e_solo : ms'.solo = none := by rw [← hms']; unfold retOpMs; rw [if_pos hw]
+    have e_done : ms'.incDone = ms.incDone + (if o.isInc then 1 else 0) := by
+      rw [← hms']; unfold retOpMs; rw [if_pos hw]
+    have e_poss : ms'.poss = (match ms.solo with
+        | some (d, saved) => if d = t then saved.map (fun l => l.map (o.newVal ms.m)) else none
+        | none => none) := by
+      rw [← hms']; unfold retOpMs; rw [if_pos hw]; rfl
+    -- if a solo writer is recorded, it is this call
+    have solo_me : ∀ d saved, ms.solo = some (d, saved) → d = t ∧ ms.nwr = 1 ∧
+        (saved = none → ms.poss = none) ∧
+        (∀ l0, saved = some l0 → ms.poss = some (l0 ++ l0.map (o.newVal ms.m)) ∧
+          s.val ∈ l0.map (o.newVal ms.m)) := by
+      intro d saved hs
+      obtain ⟨o2, seen2, lo2, clean2, h1, h2, h3, h4, h5⟩ := hR.solo d saved hs
+      have hd : d = t := (one_pendW ms.calls d t _ _ (by rw [← hR.nwr]; exact h3) h1 het
+        (isPendW_of_writer o2 seen2 lo2 clean2 h2) hpw).symm
+      subst hd
+      rw [het] at h1; cases h1
+      refine ⟨rfl, h3, h4, ?_⟩
+      intro l0 hl0
+      obtain ⟨k1, k2⟩ := h5 l0 hl0
+      exact ⟨k1, (k2 _ ha).2 r rfl⟩
+    -- the new possible set, when known, is the image of the saved one
+    have newposs : ∀ l, ms'.poss = some l → ∃ l0, ms.solo = some (t, some l0) ∧
+        l = l0.map (o.newVal ms.m) := by
+      intro l hl
+      rw [e_poss] at hl
+      cases hs : ms.solo with
+      | none => rw [hs] at hl; cases hl
+      | some ds =>
+        obtain ⟨d, saved⟩ := ds
+        rw [hs] at hl
+        simp only at hl
+        obtain ⟨hd, _, _, _⟩ := solo_me d saved hs
+        subst hd
+        simp at hl
+        cases saved with
+        | none => simp at hl
+        | some l0 => simp at hl; exact ⟨l0, rfl, hl.symm⟩
+    apply finish
+    · -- MsMono
+      refine ⟨e_m, e_base, by rw [e_inv]; exact Nat.le_refl _, by rw [e_done]; omega,
+        by rw [e_only]; exact fun h => h, by rw [e_es]; exact fun _ h => h,
+        by rw [e_cn]; exact fun _ h => h, by rw [e_ec]; exact fun _ h => h,
+        by intro h; omega, ?_⟩
+      intro l hl
+      rcases hR.p1 l hl with h0 | ⟨⟨d, saved⟩, hs⟩
+      · omega
+      · obtain ⟨hd, _, h4, h5⟩ := solo_me d saved hs
+        subst hd
+        cases saved with
+        | none => rw [h4 rfl] at hl; cases hl
+        | some l0 =>
+          obtain ⟨k1, _⟩ := h5 l0 rfl
+          rw [k1] at hl; cases hl
+          refine ⟨l0.map (o.newVal ms.m), by rw [e_poss, hs]; simp, ?_⟩
+          intro w hw'; simp only [List.mem_append]; exact Or.inr hw'
+    · -- val
+      intro l hl
+      obtain ⟨l0, hs, hl0⟩ := newposs l hl
+      subst hl0
+      exact ((solo_me t (some l0) hs).2.2.2 l0 rfl).2
+    · -- nwr
+      rw [e_nwr]
+      have h := countP_set isPendW ms.calls t _ (.op o seen lo clean false) het
+      rw [hpw] at h
+      simp [isPendW] at h
+      rw [hR.nwr]; omega
+    · -- p1
+      intro l hl
+      obtain ⟨l0, hs, _⟩ := newposs l hl
+      left
+      rw [e_nwr, (solo_me t (some l0) hs).2.1]
+    · intro d saved hs; rw [e_solo] at hs; cases hs
+    · exact e_done
+  | false =>
+    have hpw0 : isPendW (.op o seen lo clean true) = false := by simp [isPendW, hw]
+    have hinc0 : o.isInc = false := by
+      cases o with
+      | get => rfl
+      | set v => rfl
+      | swap f => cases f <;> simp [Op.isWriter] at hw <;> rfl
+    have hwf : ¬ (o.isWriter = true) := by simp [hw]
+    have e_nwr : ms'.nwr = ms.nwr := by
+      rw [← hms']; unfold retOpMs; rw [if_neg hwf]; split <;> rfl
+    have e_solo : ms'.solo = ms.solo := by
+      rw [← hms']; unfold retOpMs; rw [if_neg hwf]; split <;> rfl
+    have e_done : ms'.incDone = ms.incDone := by
+      rw [← hms']; unfold retOpMs; rw [if_neg hwf]; split <;> rfl
+    have hnwr : ms'.nwr = (ms.calls.set t (.op o seen lo clean false)).countP isPendW := by
+      rw [e_nwr]
+      have h := countP_set isPendW ms.calls t _ (.op o seen lo clean false) het
+      rw [hpw0] at h
+      simp [isPendW] at h
+      rw [hR.nwr]; omega
+    have hsolo_keep : ∀ (d : Nat) (saved : Option (List Nat)), ms.solo = some (d, saved) → d ≠ t := by
+      intro d saved hs hdt
+      subst hdt
+      obtain ⟨o2, seen2, lo2, clean2, h1, h2, _, _, _⟩ := hR.solo d saved hs
+      rw [het] at h1; cases h1
+      rw [hw] at h2; cases h2
+    by_cases hcg : (clean && o == .get) = true
+    · -- a read that overlapped no writer pins the content
+      simp at hcg
+      obtain ⟨hc, hog⟩ := hcg
+      subst hog
+      obtain ⟨hn0, hvr⟩ := hclean hc
+      have hvr := hvr rfl
+      have e_poss : ms'.poss = some [r] := by
+        rw [← hms']; unfold retOpMs; rw [if_neg hwf, if_pos (by simp [hc])]
+      apply finish
+      · refine ⟨e_m, e_base, by rw [e_inv]; exact Nat.le_refl _, by rw [e_done]; exact Nat.le_refl _,
+          by rw [e_only]; exact fun h => h, by rw [e_es]; exact fun _ h => h,
+          by rw [e_cn]; exact fun _ h => h, by rw [e_ec]; exact fun _ h => h,
+          by intro h; rw [e_nwr]; exact h, ?_⟩
+        intro l hl
+        refine ⟨[r], e_poss, ?_⟩
+        intro w hw'; simp at hw'; subst hw'; rw [← hvr]; exact hR.val l hl
+      · intro l hl; rw [e_poss] at hl; cases hl; simp [hvr]
+      · exact hnwr
+      · intro l _; left; rw [e_nwr]; exact hn0
+      · intro d saved hs
+        rw [e_solo] at hs
+        obtain ⟨_, _, _, _, _, _, h3, _, _⟩ := hR.solo d saved hs
+        omega
+      · rw [e_done, hinc0]; rfl
+    · have e_poss : ms'.poss = ms.poss := by
+        rw [← hms']; unfold retOpMs; rw [if_neg hwf, if_neg hcg]
+      apply finish
+      · exact ⟨e_m, e_base, by rw [e_inv]; exact Nat.le_refl _, by rw [e_done]; exact Nat.le_refl _,
+          by rw [e_only]; exact fun h => h, by rw [e_es]; exact fun _ h => h,
+          by rw [e_cn]; exact fun _ h => h, by rw [e_ec]; exact fun _ h => h,
+          by intro h; rw [e_nwr]; exact h, by intro l hl; exact ⟨l, by rw [e_poss]; exact hl, fun _ h => h⟩⟩
+      · intro l hl; rw [e_poss] at hl; exact hR.val l hl
+      · exact hnwr
+      · intro l hl; rw [e_poss] at hl; rw [e_nwr, e_solo]; exact hR.p1 l hl
+      · intro d saved hs
+        rw [e_solo] at hs
+        exact ⟨hs, hsolo_keep d saved hs, e_nwr, e_poss⟩
+      · rw [e_done, hinc0]; rfl
+
+
+/-! ### the simulation step -/
+
+theorem c15_sim_step (s : St) (e : Ev) (s' : St) (ms : C15St) (hR : RelC s ms)
+    (hs : step s e = some s') :
+    match Ev.obs e with
+    | none => RelC s' ms
+    | some o => ∃ ms', monC15.step ms o = some ms' ∧ RelC s' ms' := by
+  have hinv' := step_inv s e s' hR.inv hs
+  cases e with
+  | new v m =>
+    simp only [step] at hs; split at hs <;> simp at hs; subst hs
+    rename_i hth
+    have hcalls : ms.calls = [] := by
+      have := hR.len; rw [hth] at this; simpa using this
+    refine ⟨_, rfl, ?_⟩
+    refine ⟨hinv', hR.len, rfl, hR.hcx, ?_, ?_, hR.nwr, ?_, ?_, hR.icnt, ?_, ?_, hR.fresh⟩
+    · intro t ts h; simp [hth] at h
+    · intro l hl; simp at hl; subst hl; simp
+    · intro l _; left; simp only; rw [hR.nwr, hcalls]; rfl
+    · intro d saved hsolo
+      obtain ⟨o, seen, lo, clean, h1, _⟩ := hR.solo d saved hsolo
+      rw [hcalls] at h1; simp at h1
+    · intro _ _
+      obtain ⟨h1, _⟩ := hR.fresh hth
+      simp only [h1, hth]; simp
+    · intro _ t o h; simp [hth] at h
+  | invOp t o =>
+    simp only [step] at hs; split at hs <;> simp at hs; subst hs
+    simp only [Ev.obs, monC15]
+    cases hw : o.isWriter with
+    | true =>
+      simp only [if_true]
+      exact ⟨_, rfl, relC_invWriter s ms o hR hw hinv'⟩
+    | false =>
+      simp only [Bool.false_eq_true, if_false]
+      refine ⟨_, rfl, ?_⟩
+      refine relC_append s ms _ _ hR hinv' (by simp [isPendW, hw]) ?_ ⟨?_, rfl⟩ ?_
+      · refine ⟨ms.poss, ms.incDone, ms.nwr == 0, rfl, ?_, Nat.le_refl _, by intro h; simpa using h⟩
+        intro l' hl'; exact ⟨l', hl', fun _ h => h⟩
+      · cases o with
+        | get => rfl
+        | set v => rfl
+        | swap f => cases f <;> simp [Op.isWriter] at hw <;> rfl
+      · intro o' h; cases h; exact hw
+  | opCS t =>
+    simp only [step] at hs; split at hs <;> simp at hs; subst hs
+    rename_i o h
+    exact relC_opCS s ms t o hR h hinv'
+  | retOp t r =>
+    simp only [step] at hs; split at hs <;> simp at hs
+    obtain ⟨hr, rfl⟩ := hs; rename_i o r' h
+    subst hr
+    exact relC_retOp s ms t o r hR h hinv'
+  | invWait t k ech =>
+    simp only [step] at hs; split at hs <;> simp at hs; subst hs
+    simp only [Ev.obs, monC15]
+    refine ⟨_, rfl, ?_⟩
+    refine relC_append s ms _ _ hR hinv' rfl ?_ ⟨rfl, rfl⟩ (by intro o h; cases h)
+    refine ⟨ms.poss, ms.incDone, rfl, ?_, Nat.le_refl _, ?_⟩
+    · intro l' hl'; exact ⟨l', hl', fun _ h => h⟩
+    · intro c hc
+      cases ech <;> simp at hc
+      subst hc
+      exact ⟨by intro e he; simp at he, by intro h; cases h⟩
+  | waitCS t =>
+    simp only [step] at hs; split at hs <;> simp at hs; subst hs
+    rename_i k ech h
+    exact relC_waitAttempt s ms t _ k ech hR h (by intro e he; exact he) ⟨rfl, rfl⟩
+  | wakeCS t =>
+    simp only [step] at hs; split at hs <;> simp at hs
+    obtain ⟨_, rfl⟩ := hs; rename_i k ech c h _
+    exact relC_waitAttempt s ms t _ k ech hR h (by intro e he; exact he) ⟨rfl, rfl⟩
+  | ctxTake t =>
+    simp only [step] at hs; split at hs <;> simp at hs
+    obtain ⟨hcx, rfl⟩ := hs; rename_i k ech c h
+    refine relC_wmove s ms t _ _ s.bc hR h hinv' ?_ ?_ ⟨rfl, rfl⟩ ⟨rfl, rfl⟩ (by intro o h; cases h)
+    · intro e he; obtain ⟨seen, lo, h1, _⟩ := he; exact ⟨k, seen, lo, h1⟩
+    · intro e he
+      obtain ⟨seen, lo, h1, _⟩ := he
+      exact ⟨k, seen, lo, h1, Or.inl (by rw [hR.hcx]; exact hcx)⟩
+  | errTake t =>
+    simp only [step] at hs; split at hs <;> try simp at hs
+    rename_i k ech c h
+    split at hs
+    · rename_i err rest hq
+      simp at hs; subst hs
+      refine relC_wmove s ms t _ _ s.bc hR h hinv' ?_ ?_ ⟨rfl, rfl⟩ ⟨rfl, rfl⟩ (by intro o h; cases h)
+      · intro e he; obtain ⟨seen, lo, h1, _⟩ := he; exact ⟨k, seen, lo, h1⟩
+      · intro e he
+        obtain ⟨seen, lo, h1, _, _, h4⟩ := he
+        exact ⟨k, seen, lo, h1, Or.inl ((h4 ech rfl).1 err (by rw [hq]; simp))⟩
+    · rename_i rest hq
+      simp at hs; subst hs
+      refine relC_wmove s ms t _ _ s.bc hR h hinv' ?_ ?_ ⟨rfl, rfl⟩ ⟨rfl, rfl⟩ (by intro o h; cases h)
+      · intro e he; obtain ⟨seen, lo, h1, _⟩ := he; exact ⟨k, seen, lo, h1⟩
+      · intro e he
+        obtain ⟨seen, lo, h1, h2, h3, h4⟩ := he
+        refine ⟨seen, lo, h1, h2, h3, ?_⟩
+        intro c' hc'
+        cases hc'
+        obtain ⟨g1, g2⟩ := h4 ech rfl
+        exact ⟨fun e he => g1 e (by rw [hq]; simp [he]), g2⟩
+    · rename_i hq
+      split at hs <;> simp at hs; subst hs
+      rename_i hcl
+      refine relC_wmove s ms t _ _ s.bc hR h hinv' ?_ ?_ ⟨rfl, rfl⟩ ⟨rfl, rfl⟩ (by intro o h; cases h)
+      · intro e he; obtain ⟨seen, lo, h1, _⟩ := he; exact ⟨k, seen, lo, h1⟩
+      · intro e he
+        obtain ⟨seen, lo, h1, _, _, h4⟩ := he
+        exact ⟨k, seen, lo, h1, Or.inr ((h4 ech rfl).2 hcl)⟩
+  | retWait t r =>
+    simp only [step] at hs; split at hs <;> simp at hs
+    obtain ⟨hr, rfl⟩ := hs; rename_i r' h
+    subst hr
+    obtain ⟨e, he, k, seen, lo, h1, h2⟩ := hR.corr t _ h
+    subst h1
+    have hmove : RelC { s with th := s.th.set t .done } ms :=
+      relC_wmove s ms t _ _ s.bc hR h hinv'
+        (by intro e' he'; obtain ⟨k', seen', lo', g1, _⟩ := he'; exact ⟨k', seen', lo', g1⟩)
+        (by intro e' he'; obtain ⟨k', seen', lo', g1, _⟩ := he'; exact Or.inr ⟨k', seen', lo', g1⟩)
+        ⟨rfl, rfl⟩ ⟨rfl, rfl⟩ (by intro o h; cases h)
+    refine ⟨ms, ?_, hmove⟩
+    simp only [monC15, he]
+    cases r with
+    | val v =>
+      obtain ⟨g1, g2, g3, g4⟩ := h2
+      have : (k != WKind.empty) = true := by simpa using g1
+      simp [this, g2, g3, g4]
+    | ok =>
+      obtain ⟨g1, g2⟩ := h2
+      simp [g1] at g2 ⊢
+      exact g2
+    | err e =>
+      rcases h2 with g | ⟨g1, g2⟩
+      · simp [g]
+      · subst g1; simp [g2]
+    | canceled =>
+      rcases h2 with g | g
+      · simp [g]
+      · simp [g]
+  | envCancel t =>
+    simp only [step] at hs; split at hs <;> simp at hs; subst hs
+    refine ⟨_, rfl, ?_⟩
+    have := relC_env s ms (t :: s.cx) (t :: ms.cancelled) ms.errsent ms.errclosed hR
+      (by rw [hR.hcx]) (fun x h => by simp [h]) (fun _ h => h) (fun _ h => h)
+    exact this
+  | envErr t m =>
+    cases m with
+    | none =>
+      refine ⟨ms, rfl, ?_⟩
+      refine relC_onECh s s' ms t _ hR hs hinv' ?_
+      intro c c' hf hok
+      split at hf <;> simp at hf
+      subst hf
+      intro c2 hc2; cases hc2
+      obtain ⟨g1, g2⟩ := hok c rfl
+      exact ⟨fun e he => g1 e (by simp at he; exact he), g2⟩
+    | some err =>
+      refine ⟨_, rfl, ?_⟩
+      have hR2 := relC_env s ms s.cx ms.cancelled ((t, err) :: ms.errsent) ms.errclosed hR hR.hcx
+        (fun _ h => h) (fun x h => by simp [h]) (fun _ h => h)
+      have hs2 : onECh { s with cx := s.cx } t
+          (fun c => if c.closed then none else some { c with q := c.q ++ [some err] }) = some s' := hs
+      refine relC_onECh _ s' _ t _ hR2 hs2 hinv' ?_
+      intro c c' hf hok
+      split at hf <;> simp at hf
+      subst hf
+      intro c2 hc2; cases hc2
+      obtain ⟨g1, g2⟩ := hok c rfl
+      refine ⟨?_, g2⟩
+      intro e he
+      simp at he
+      rcases he with he | he
+      · exact g1 e he
+      · subst he; simp
+  | envErrClose t =>
+    refine ⟨_, rfl, ?_⟩
+    have hR2 := relC_env s ms s.cx ms.cancelled ms.errsent (t :: ms.errclosed) hR hR.hcx
+      (fun _ h => h) (fun _ h => h) (fun x h => by simp [h])
+    have hs2 : onECh { s with cx := s.cx } t
+        (fun c => if c.closed then none else some { c with closed := true }) = some s' := hs
+    refine relC_onECh _ s' _ t _ hR2 hs2 hinv' ?_
+    intro c c' hf hok
+    split at hf <;> simp at hf
+    subst hf
+    intro c2 hc2; cases hc2
+    obtain ⟨g1, _⟩ := hok c rfl
+    exact ⟨g1, fun _ => by simp⟩
+  | quiesce B =>
+    simp only [step] at hs; split at hs <;> simp at hs
+    rename_i hcond
+    subst hs
+    obtain ⟨hq, hB⟩ := hcond
+    refine ⟨ms, ?_, hR⟩
+    simp only [monC15]
+    by_cases hc : (ms.nwr == 0) = true
+    · simp only [hc, if_true]
+      cases hk : knownV ms.poss with
+      | none => rfl
+      | some v =>
+        simp only
+        obtain ⟨l, hl, hall⟩ := knownV_spec _ _ hk
+        have hxv : s.val = v := hall _ (hR.val l hl)
+        rw [if_pos]
+        rw [List.all_eq_true]
+        intro c hcB
+        rw [hB] at hcB
+        simp only [pendingIds, List.mem_filter, List.mem_range] at hcB
+        obtain ⟨hlt, hm⟩ := hcB
+        cases hth : s.th[c]? with
+        | none => simp [hth] at hm
+        | some ts =>
+          cases ts <;> simp [hth] at hm
+          rename_i k ech ch
+          obtain ⟨e, he, seen, lo, h1, _⟩ := hR.corr c _ hth
+          subst h1
+          simp only [he]
+          have hopen : s.bc.closed ch = false := by
+            unfold quiescent at hq
+            rw [List.all_eq_true] at hq
+            have := hq c (by simp [hlt])
+            simp only [hth, TS.quiet] at this
+            simp at this
+            exact this.1.1
+          have hev := (hR.inv.parked c k ech ch hth).2 hopen
+          rw [hR.hm, ← hxv, hev]; rfl
+    · simp only [hc]; rfl
 
 end UtilModel.CContainer
